@@ -4,8 +4,11 @@
 package main
 
 import (
+	"context"
 	"crypto/ecdsa"
 	"fmt"
+	"sort"
+	"verifharness/gossipnet"
 
 	pubsub "github.com/libp2p/go-libp2p-pubsub"
 
@@ -91,6 +94,10 @@ func main() {
 					}
 				}
 			}
+			nEnum = len(plans)
+			for i := 0; i < env.Scale(48, 600); i++ {
+				plans = append(plans, plan{flavour: "history"})
+			}
 			return len(plans), nil
 		},
 		RunCase: runCase,
@@ -98,6 +105,8 @@ func main() {
 			agg.Require("validator_calls", 100000)
 			agg.Require("accepted_valid", 10)
 			agg.Require("metamorphic_rejected", 100)
+			agg.Require("history_invalid_after_valid_rejected", 100)
+			agg.Require("history_valid_accepted", 50)
 			agg.Extra["enumerated_n_max"] = env.Scale(3, 4)
 		},
 	})
@@ -276,7 +285,199 @@ func structureOK(signers []uint64, n, t int) (bool, string) {
 	return true, ""
 }
 
+var nEnum int
+
+// historyCase: one long-lived validator instance of a real node (access node, Gnosis keyper,
+// Shutter-service keyper) sees a genuine keys message and, before and after it, messages with the
+// same signed content whose signer/signature lists are not a genuine threshold. Whatever the
+// instance remembers, the verdict on each message must be the label-based one.
+func historyCase(env *vlib.Env, idx int, rep *vlib.Reporter) {
+	ctx := context.Background()
+	r := vlib.NewRng(env.Seed, 606, uint64(idx))
+	fl := []gossipnet.Flavour{gossipnet.AccessNode, gossipnet.Gnosis, gossipnet.Service}[idx%3]
+	n := 3 + r.Intn(2)
+	t := 1 + r.Intn(n)
+	w := gossipnet.NewWorld(env.Seed+uint64(idx%5), n, t)
+	index := r.Intn(n)
+	node, err := gossipnet.NewNode(ctx, w, fl, index, gossipnet.StateMemberSuccess)
+	if err != nil {
+		rep.Inconclusive("node: " + err.Error())
+		return
+	}
+	defer node.Close()
+	sigFl := fl
+	if fl == gossipnet.AccessNode {
+		sigFl = gossipnet.Gnosis
+	}
+	ids := gossipnet.MakeIDs(r, sigFl, 1+r.Intn(2))
+	signers := r.Perm(n)[:t]
+	sort.Ints(signers)
+	genuine := func() *p2pmsg.DecryptionKeys {
+		m := w.KeysMsg(sigFl, ids, signers)
+		return m
+	}
+	setLists := func(m *p2pmsg.DecryptionKeys, idx []uint64, sigs [][]byte) {
+		switch ex := m.Extra.(type) {
+		case *p2pmsg.DecryptionKeys_Gnosis:
+			ex.Gnosis.SignerIndices, ex.Gnosis.Signatures = idx, sigs
+		case *p2pmsg.DecryptionKeys_Service:
+			ex.Service.SignerIndices, ex.Service.Signature = idx, sigs
+		}
+	}
+	lists := func(m *p2pmsg.DecryptionKeys) ([]uint64, [][]byte) {
+		switch ex := m.Extra.(type) {
+		case *p2pmsg.DecryptionKeys_Gnosis:
+			return append([]uint64{}, ex.Gnosis.SignerIndices...), append([][]byte{}, ex.Gnosis.Signatures...)
+		case *p2pmsg.DecryptionKeys_Service:
+			return append([]uint64{}, ex.Service.SignerIndices...), append([][]byte{}, ex.Service.Signature...)
+		}
+		return nil, nil
+	}
+	type variant struct {
+		name string
+		mk   func() *p2pmsg.DecryptionKeys
+	}
+	outsiderKey, _ := fixtures.Outsider(env.Seed + 9)
+	variants := []variant{
+		{"no-signers", func() *p2pmsg.DecryptionKeys { m := genuine(); setLists(m, nil, nil); return m }},
+		{"garbage-signatures", func() *p2pmsg.DecryptionKeys {
+			m := genuine()
+			si, sg := lists(m)
+			for i := range sg {
+				sg[i] = r.Bytes(65)
+			}
+			setLists(m, si, sg)
+			return m
+		}},
+		{"outsider-signatures", func() *p2pmsg.DecryptionKeys {
+			m := genuine()
+			si, sg := lists(m)
+			for i := range sg {
+				if sigFl == gossipnet.Gnosis {
+					sg[i] = w.GnosisSig(outsiderKey, m.InstanceId, m.Eon, gossipnet.DefaultSlot, gossipnet.DefaultPtr, ids)
+				} else {
+					sg[i] = w.ServiceSig(outsiderKey, m.InstanceId, m.Eon, ids)
+				}
+			}
+			setLists(m, si, sg)
+			return m
+		}},
+		{"one-signature-flipped", func() *p2pmsg.DecryptionKeys {
+			m := genuine()
+			si, sg := lists(m)
+			c := append([]byte{}, sg[len(sg)-1]...)
+			c[r.Intn(64)] ^= 4
+			sg[len(sg)-1] = c
+			setLists(m, si, sg)
+			return m
+		}},
+		{"one-signer-fewer", func() *p2pmsg.DecryptionKeys {
+			m := genuine()
+			si, sg := lists(m)
+			setLists(m, si[:len(si)-1], sg[:len(sg)-1])
+			return m
+		}},
+		{"signatures-without-signers", func() *p2pmsg.DecryptionKeys {
+			m := genuine()
+			_, sg := lists(m)
+			setLists(m, nil, sg)
+			return m
+		}},
+		{"signer-out-of-range", func() *p2pmsg.DecryptionKeys {
+			m := genuine()
+			si, sg := lists(m)
+			si[len(si)-1] = uint64(n)
+			setLists(m, si, sg)
+			return m
+		}},
+		{"wrong-signer-index", func() *p2pmsg.DecryptionKeys {
+			// the last listed signer is replaced by a keyper that did not sign
+			m := genuine()
+			si, sg := lists(m)
+			used := map[uint64]bool{}
+			for _, x := range si {
+				used[x] = true
+			}
+			for k := uint64(0); k < uint64(n); k++ {
+				if !used[k] && (len(si) < 2 || k > si[len(si)-2]) {
+					si[len(si)-1] = k
+					setLists(m, si, sg)
+					return m
+				}
+			}
+			return nil
+		}},
+	}
+	if t >= 2 {
+		variants = append(variants, variant{"repeated-signer", func() *p2pmsg.DecryptionKeys {
+			m := genuine()
+			si, sg := lists(m)
+			si[len(si)-1], sg[len(sg)-1] = si[0], sg[0]
+			setLists(m, si, sg)
+			return m
+		}})
+	}
+	desc := fmt.Sprintf("history %s n=%d t=%d node=%d signers=%v ids=%d", fl, n, t, index, signers, len(ids))
+	topic := (&p2pmsg.DecryptionKeys{}).Topic()
+	send := func(m *p2pmsg.DecryptionKeys, label string, want bool, phase string) bool {
+		var res pubsub.ValidationResult
+		if rep.Guard("panic:history:"+string(fl), desc+" "+label, func() { res = node.Validate(ctx, topic, gossipnet.MustMarshal(m)) }) {
+			return false
+		}
+		rep.Obs("validator_calls", 1)
+		got := res == pubsub.ValidationAccept
+		if got == want {
+			return true
+		}
+		if want {
+			rep.Violationf("rejects-valid:"+string(fl)+":history", map[string]any{"case": desc, "message": label, "phase": phase}, "the genuine keys message was rejected (%s)", phase)
+		} else {
+			rep.Violationf("accepts-invalid:"+string(fl)+":history:"+label, map[string]any{"case": desc, "phase": phase}, "a keys message with %s was accepted %s", label, phase)
+		}
+		return false
+	}
+	for round := 0; round < 2; round++ {
+		phase := []string{"before any genuine message", "after the genuine message was accepted"}[round]
+		for _, vi := range r.Perm(len(variants)) {
+			m := variants[vi].mk()
+			if m == nil {
+				continue
+			}
+			// the Shutter-service validator deliberately admits a keys message that carries neither
+			// signers nor signatures ("Allow for empty signatures and signer indices")
+			si, sg := lists(m)
+			if fl == gossipnet.Service && len(si) == 0 && len(sg) == 0 {
+				if !send(m, variants[vi].name+"(unsigned, admitted by design)", true, phase) {
+					return
+				}
+				rep.Obs("history_service_unsigned_admitted", 1)
+				continue
+			}
+			if !send(m, variants[vi].name, false, phase) {
+				return
+			}
+			if round == 1 {
+				rep.Obs("history_invalid_after_valid_rejected", 1)
+			}
+		}
+		if !send(genuine(), "genuine", true, phase) {
+			return
+		}
+		rep.Obs("history_valid_accepted", 1)
+	}
+	rep.Eval(desc, true)
+	if node.DBNode != nil {
+		if u := node.DBNode.CheckUnsupported(); u != "" {
+			rep.Inconclusive(u)
+		}
+	}
+}
+
 func runCase(env *vlib.Env, idx int, rep *vlib.Reporter) {
+	if idx >= nEnum {
+		historyCase(env, idx, rep)
+		return
+	}
 	p := plans[idx]
 	f := newFixture(env, p.flavour, p.n, p.t)
 	r := vlib.NewRng(env.Seed, 66, uint64(idx))
@@ -408,6 +609,20 @@ func metamorphic(f *fixture, r *vlib.Rng, signers []uint64, sigs [][]byte, rep *
 			m.Keys[1] = &p2pmsg.Key{IdentityPreimage: c, Key: m.Keys[1].Key}
 		}},
 		{"idorder", func(m *p2pmsg.DecryptionKeys) { m.Keys[0], m.Keys[1] = m.Keys[1], m.Keys[0] }},
+		// identity 0 is all zero bytes: dropping or adding leading zero bytes gives another identity
+		{"idstrip1", func(m *p2pmsg.DecryptionKeys) {
+			m.Keys[0] = &p2pmsg.Key{IdentityPreimage: append([]byte{}, m.Keys[0].IdentityPreimage[1:]...), Key: m.Keys[0].Key}
+		}},
+		{"idstrip-half", func(m *p2pmsg.DecryptionKeys) {
+			id := m.Keys[0].IdentityPreimage
+			m.Keys[0] = &p2pmsg.Key{IdentityPreimage: append([]byte{}, id[len(id)/2:]...), Key: m.Keys[0].Key}
+		}},
+		{"idstrip-all", func(m *p2pmsg.DecryptionKeys) {
+			m.Keys[0] = &p2pmsg.Key{IdentityPreimage: []byte{}, Key: m.Keys[0].Key}
+		}},
+		{"idpad", func(m *p2pmsg.DecryptionKeys) {
+			m.Keys[1] = &p2pmsg.Key{IdentityPreimage: append([]byte{0}, m.Keys[1].IdentityPreimage...), Key: m.Keys[1].Key}
+		}},
 		{"iddrop", func(m *p2pmsg.DecryptionKeys) { m.Keys = m.Keys[:1] }},
 		{"idadd", func(m *p2pmsg.DecryptionKeys) {
 			m.Keys = append(m.Keys, &p2pmsg.Key{IdentityPreimage: append([]byte{0xff}, r.Bytes(len(m.Keys[0].IdentityPreimage)-1)...), Key: []byte{9}})
